@@ -222,3 +222,17 @@ Definition cop_regs (o : cop) : list rreg :=
   | CSave => []
   end.
 Definition cop_thread_op (o : cop) : list (rmap -> rmap) * list sstep := (map reg_fun (cop_regs o), save_prog).
+
+(* ---------- GC's sweep of files that are no content, from the sources ---------- *)
+From Coq Require Import String.
+Definition alg_known (a : string) : bool := existsb (String.eqb a) c08_known_algorithms.
+(* a file blobs/<alg>/<name> that is not in the graph is removed iff the directory is a known
+   algorithm and the name is a valid encoded digest of it *)
+Definition stray_swept (alg : string) (valid_name : bool) : bool := alg_known alg && valid_name.
+Definition stray_of_kind (k : stray) : string * bool :=
+  match k with
+  | SValidName => ("digest.SHA256"%string, true)
+  | SInvalidName => ("digest.SHA256"%string, false)
+  | SUnknownAlg => ("sha999"%string, true)
+  | SBlobsFile => (""%string, false)
+  end.
